@@ -739,6 +739,9 @@ class Ovld:
         fr = sys._getframe(1)
         key = (fr.f_code, *self._key_of(args))
         method = self.map[key]
+        if self.argument_analysis.is_method:
+            # The caller is a method of this function: its instance goes along
+            return method(fr.f_locals["self"], *args)
         return method(*args)
 
     def _call_next(self, code, slf, /, *args, **kwargs):
